@@ -152,6 +152,33 @@ impl BufX for Seg {
     }
 }
 
+/// A practically endless source of zero bytes: `remaining()` starts at `usize::MAX`. Used below
+/// a `Take` to exercise saturating arithmetic in the adapters.
+pub struct Endless {
+    pub consumed: usize,
+}
+static ZEROS: [u8; 64] = [0; 64];
+impl Buf for Endless {
+    fn remaining(&self) -> usize {
+        usize::MAX - self.consumed
+    }
+    fn chunk(&self) -> &[u8] {
+        &ZEROS[..]
+    }
+    fn advance(&mut self, cnt: usize) {
+        assert!(cnt <= self.remaining());
+        self.consumed += cnt;
+    }
+}
+impl BufX for Endless {
+    fn dismantle(self: Box<Self>) -> Vec<BX> {
+        Vec::new()
+    }
+    fn tname(&self) -> &'static str {
+        "Endless"
+    }
+}
+
 /// Same as `Seg` but leaves `chunks_vectored` to the trait's default implementation.
 pub struct SegD(pub Seg);
 impl Buf for SegD {
@@ -235,6 +262,8 @@ pub enum Spec {
     Cursor(usize, Vec<u8>), // position, whole vector
     Deque(usize, Vec<u8>),  // rotation, contents
     Seg(u8, Vec<Vec<u8>>),  // 0 = own default-like vectored, 1 = multi-slice vectored, 2 = trait default
+    /// endless zeros (only below a Take with a small limit); its model is a long-enough prefix
+    Endless,
     Take(usize, bool, Box<Spec>),
     Chain(bool, Box<Spec>, Box<Spec>),
 }
@@ -246,6 +275,7 @@ impl Spec {
             Spec::Slice(v) | Spec::Bytes(_, v) | Spec::BytesMut(_, v) | Spec::Deque(_, v) => v.clone(),
             Spec::Cursor(p, v) => v[(*p).min(v.len())..].to_vec(),
             Spec::Seg(_, parts) => parts.concat(),
+            Spec::Endless => vec![0u8; 4096],
             Spec::Take(l, _, x) => {
                 let m = x.model();
                 let n = (*l).min(m.len());
@@ -266,6 +296,7 @@ impl Spec {
             Spec::Cursor(..) => "Cursor".into(),
             Spec::Deque(..) => "Deque".into(),
             Spec::Seg(k, p) => format!("Seg{k}x{}", p.len().min(3)),
+            Spec::Endless => "Endless".into(),
             Spec::Take(_, m, x) => format!("Take{}({})", if *m { "&" } else { "" }, x.shape()),
             Spec::Chain(m, a, b) => format!("Chain{}({},{})", if *m { "&" } else { "" }, a.shape(), b.shape()),
         }
@@ -385,6 +416,7 @@ pub fn build(s: &Spec) -> BX {
             }
             Box::new(d)
         }
+        Spec::Endless => Box::new(Endless { consumed: 0 }),
         Spec::Seg(k, parts) => match k {
             2 => Box::new(SegD(Seg::new(parts.clone(), false))),
             1 => Box::new(Seg::new(parts.clone(), true)),
@@ -458,6 +490,11 @@ pub fn dismantle_check(s: &Spec, b: BX, n: usize, root_limit: Option<usize>, err
             let ka = kids.pop().unwrap();
             dismantle_check(a, ka, na, None, errs, count);
             dismantle_check(bb, kb, n - na, None, errs, count);
+        }
+        Spec::Endless => {
+            if b.remaining() != usize::MAX - n {
+                errs.push(format!("endless inner reports remaining {} after {} bytes were transferred", b.remaining(), n));
+            }
         }
         leaf => {
             let m = leaf.model();
